@@ -209,4 +209,18 @@ CHECKS = {
         rule="execution = (stream, configuration, schedule); each contributes one case per cut position; non-trivial = executions with more than one cut position (at least one command reached the target)",
         parts=[dict(pkg="./redis-shake/dbSync", harness=["dbsync"], test="^TestVerif_C04$", shards=16, gomaxprocs=2, budget=dict(quick=75, thorough=1500))],
     ),
+    "C08": dict(
+        level="model_checking",
+        engine="stimx (synctest + seqx)",
+        technique="exhaustive enumeration of environment histories (ack ticks, traffic bursts, connection cuts, refused redials) driving the real incremental-sync copy/ack/reconnect loop and parser inside a fake-clock bubble against a model master that records every ACK and PSYNC",
+        text="The real runIncrementalSync (pSyncPipeCopy, the once-per-second ACK goroutine, the reconnect loop with SendPSyncContinue) runs against a model master; the real "
+             "parser consumes the pipe. Every stimulus sequence up to the stated length over {1 s tick, deliver 7 bytes, deliver 8193 bytes (more than the 8 KiB copy "
+             "buffer), cut the source connection} with at most two cuts and an accept/refuse choice at every redial is executed for start offsets 0, 1, 2^31, 2^40. "
+             "Oracle: every ACK is <= start + bytes received so far and never decreases; after an idle tick it equals start + bytes received; every reconnect sends "
+             "PSYNC <runid> start+received+1; every fully received command is delivered by the parser exactly once across reconnects and tagged with its true end "
+             "position in the stream (the value checkpoints store).",
+        note="production-size bufio buffers (32 MiB / 8 MiB) are allocated by the reconnect path itself; the first connection uses 4 KiB buffers passed as parameters; the tool gives up by design after its fourth retry, so at most two cuts are explored",
+        rule="execution = (start offset, stimulus sequence, dial answers); states = distinct executions; transitions = stimuli; non-trivial = executions containing at least one acknowledgement tick",
+        parts=[dict(pkg="./redis-shake/dbSync", harness=["dbsync"], test="^TestVerif_C08$", shards=16, gomaxprocs=2, budget=dict(quick=75, thorough=1200))],
+    ),
 }
